@@ -231,6 +231,9 @@ var symRe = regexp.MustCompile(`\|[^|]+\|`)
 // share a (quoted) symbol with that cone, to a fixpoint.  Dropping assumptions
 // can only make an obligation harder to discharge, never easier: sound.
 func sliceBody(body []string, goal string) []string {
+	if os.Getenv("ZVC_NOSLICE") != "" {
+		return body
+	}
 	type line struct {
 		text string
 		def  string
